@@ -234,11 +234,15 @@ def r_tab_1904(ctx, rep):
     key = "xlsb::Xlsb::read_workbook|R-TAB-1904"
     if fn:
         ok = False
-        for a in walk_k(fn.body, "Assign"):
-            if field_chain(a["l"]) == ("self", ["is_1904"]):
-                for b in walk_k(a["r"], "Binary"):
-                    if b["op"] == "&" and lit_value(b["r"]) == 1:
-                        ok = True
+        from .kit import with_new_callees
+        for body_ in with_new_callees(F, fn):
+            for a in walk_k(body_, "Assign"):
+                fc_ = field_chain(a["l"])
+                # `self.is_1904 = ..`, or `*parts.is_1904 = ..` through a context struct holding `&mut self.is_1904`
+                if fc_ and fc_[1] and fc_[1][-1] == "is_1904":
+                    for b in walk_k(a["r"], "Binary"):
+                        if b["op"] == "&" and lit_value(b["r"]) == 1:
+                            ok = True
         if ok:
             rep.holds("R-TAB-1904", key, loc(fn.raw), "BrtWbProp bit 0 (f1904)")
         else:
@@ -540,8 +544,9 @@ def r_chase(ctx, rep):
                 fed_by_v = set()
                 for c in walk_k(body, "MethodCall", "Call"):
                     if any(p.get("res", {}).get("lid") == vlid for p in walk_k(c, "Path")):
-                        if c.get("k") == "MethodCall" and path_local(c["recv"]):
-                            fed_by_v.add(path_local(c["recv"])[1])
+                        rp = peel(c["recv"]) if c.get("k") == "MethodCall" else None
+                        if isinstance(rp, dict) and rp.get("k") == "Path" and path_local(rp):
+                            fed_by_v.add(path_local(rp)[1])
                 dep = False
                 for a in assigns:
                     used = {p["res"]["lid"] for p in walk_k(a["r"], "Path") if "local" in p.get("res", {})}
